@@ -93,6 +93,15 @@ fn lua_key(name: &str) -> String {
     }
 }
 
+/// A read of the global `name`, also when the name is a reserved word of Lua.
+fn lua_global(name: &str) -> String {
+    if LUA_KEYWORDS.contains(&name) {
+        format!("_G[{}]", lua_string(name))
+    } else {
+        name.to_string()
+    }
+}
+
 struct Generator<'a, 'b> {
     usage_count: &'a HashMap<Var, usize>,
     out: &'b mut dyn Write,
@@ -221,7 +230,7 @@ impl<'a, 'b> Generator<'a, 'b> {
                     let t = self.expand(t);
                     write!(self.out, "{}", t);
                     write!(self.out, " = ");
-                    write!(self.out, e);
+                    write!(self.out, "{}", lua_global(e));
                 }
 
                 IR::Call(t, f, args) => {
